@@ -17,6 +17,7 @@ FRAMES = [
     ("W-2309", f"045  W --- 18:006402 {CTL} --:------ 2309 003 0107D0"),
     ("I-313F", f"045  I --- {CTL} --:------ {CTL} 313F 009 00FC380BAA130207E6"),
     ("RQ-313F", f"045 RQ --- 18:006402 {CTL} --:------ 313F 001 00"),
+    ("W-313F", f"045  W --- 18:006402 {CTL} --:------ 313F 009 0060002916050B07E7"),
     ("RP-0404", f"045 RP --- {CTL} 18:006402 --:------ 0404 048 0120000829010368816DCFCB0980301045D1994C3E624916660956604596600516E1D285094112F566F5B80C072222A2"),
     ("W-0404", f"045  W --- 18:006402 {CTL} --:------ 0404 048 0120000829010368816DCFCB0980301045D1994C3E624916660956604596600516E1D285094112F566F5B80C072222A2"),
     ("RQ-0404", f"045 RQ --- 18:006402 {CTL} --:------ 0404 007 01200008000100"),
